@@ -228,9 +228,9 @@ func linkImpl(args [][]byte) (string, []string) {
 func runC09(c *core.Ctx) {
 	const thm = "C09_* (props/C09.v); model op link = Ops.dump_link_with"
 	c.ReplayKnown()
-	nSchemas, per := 40, 25
+	nSchemas, per := 250, 30
 	if !c.Quick {
-		nSchemas, per = 400, 50
+		nSchemas, per = 3000, 50
 	}
 	feats := map[string]int{}
 	cases := GenValidationCases(c, nSchemas, per, feats)
